@@ -81,6 +81,13 @@ class Ctx:
         except OSError:
             pass
         cmd = ["go", "build", "-tags", tags, "-o", out]
+        alt = os.environ.get("VERIF_REPO_OVERRIDE")       # experiments only: build against a scratch copy of the repository
+        if alt:
+            mf = os.path.join(self.scratch, "go.mod")
+            open(mf, "w").write(open(os.path.join(HARNESS, "go.mod")).read().replace("=> /repo", "=> " + alt))
+            shutil.copyfile(os.path.join(alt, "go.sum"), os.path.join(self.scratch, "go.sum"))
+            cmd.append("-modfile=" + mf)
+            log("[build] EXPERIMENT: building against %s instead of /repo; evidence goes to /tmp/verif-override-evidence" % alt)
         if race:
             cmd.append("-race")
         cmd.append("./cmd/vh")
@@ -252,8 +259,9 @@ class Ctx:
         if self.exhaustive is not None:
             ev["coverage"]["exhaustive"] = self.exhaustive
         ev["coverage"].update(self.extra)
-        os.makedirs(os.path.join(VERIF, "evidence"), exist_ok=True)
-        with open(os.path.join(VERIF, "evidence", self.prop + ".json"), "w") as fh:
+        evdir = "/tmp/verif-override-evidence" if os.environ.get("VERIF_REPO_OVERRIDE") else os.path.join(VERIF, "evidence")
+        os.makedirs(evdir, exist_ok=True)
+        with open(os.path.join(evdir, self.prop + ".json"), "w") as fh:
             json.dump(ev, fh, indent=1, sort_keys=True)
             fh.write("\n")
         for k, v in sorted(self.counters.items()):
